@@ -8,14 +8,22 @@ def run(rep: Report, repo: Repo, tier: str) -> None:
     rep.unit("src/cminx/rstwriter.py")
     rep.assume("str.split/join, f-string and += semantics; for-loops over a str iterate its characters",
                "section()/simple_table()/doctest inside directives are outside the property's quantifier")
-    writer_rules.rule_purity(rep, repo, "C20-R1")
-    writer_rules.rule_heading(rep, repo, "C20-R2")
-    writer_rules.rule_line_start_indent(rep, repo, "C20-R3")
-    writer_rules.rule_indent_plumbing(rep, repo, "C20-R4")
-    writer_rules.rule_directive_order(rep, repo, "C20-R5")
-    writer_rules.rule_paragraph(rep, repo, "C20-R6")
-    writer_rules.rule_values_verbatim(rep, repo, "C20-R7")
+    with rep.isolated():
+        writer_rules.rule_purity(rep, repo, "C20-R1")
+    with rep.isolated():
+        writer_rules.rule_heading(rep, repo, "C20-R2")
+    with rep.isolated():
+        writer_rules.rule_line_start_indent(rep, repo, "C20-R3")
+    with rep.isolated():
+        writer_rules.rule_indent_plumbing(rep, repo, "C20-R4")
+    with rep.isolated():
+        writer_rules.rule_directive_order(rep, repo, "C20-R5")
+    with rep.isolated():
+        writer_rules.rule_paragraph(rep, repo, "C20-R6")
+    with rep.isolated():
+        writer_rules.rule_values_verbatim(rep, repo, "C20-R7")
     # "re-framed when the title is changed": the heading is always the first element and no other copy of it is kept that
     # could come back (clear() keeps document[0], it does not restore a cached heading)
     from . import misc_rules
-    misc_rules.rule_writer_first_element(rep, repo, "C20-R8")
+    with rep.isolated():
+        misc_rules.rule_writer_first_element(rep, repo, "C20-R8")
